@@ -209,7 +209,7 @@ func childMain(dir string) {
 			}
 			// entry-specific code is only reachable when the shared front end accepts the input:
 			// unreadable documents get one further entry point, readable but invalid ones three.
-			if pdf && ki >= nFixedPDF && !mf.Ungated {
+			if pdf && ki >= nFixedPDF && !mf.Ungated && !c.NoGate {
 				allow := len(c.Plan)
 				switch {
 				case !readOK:
@@ -238,7 +238,11 @@ func childMain(dir string) {
 			b := rec{T: "B", Case: ci, Call: ki, Entry: name}
 			cs.write(b)
 			cs.cur.Store(&b)
-			cs.budget.Store(int64(budgetFor(len(in), mf.Mult)))
+			budget := budgetFor(len(in), mf.Mult)
+			if c.BudgetMs > 0 && mf.Mult <= 1 {
+				budget = time.Duration(c.BudgetMs) * time.Millisecond
+			}
+			cs.budget.Store(int64(budget))
 			cs.startWal.Store(time.Now().UnixNano())
 			start := cpuNow()
 			cs.startCPU.Store(int64(start))
